@@ -289,6 +289,9 @@ func runCheck(id, tier string, seed int64) int {
 					}
 					continue
 				}
+				if strings.HasPrefix(mode, "ts-") && bw.Spec.NoTS {
+					continue
+				}
 				jobs = append(jobs, &job{world: bw, mode: mode, checks: tc.checks,
 					rseed: gen.Mix(uint64(seed), uint64(len(jobs))*31+uint64(mi)+uint64(start)*977)%1000000007 + 1,
 					out:   filepath.Join(scratch, fmt.Sprintf("res-%s-%s.json", bw.Spec.Name, mode))})
